@@ -82,6 +82,9 @@ M = [
  ("C05-index-tensor-fix-reverted", "C05", "src/mygrad/_tensor_core_ops/indexing.py",
   "    return tuple(np.array(ind.data) if isinstance(ind, Tensor) else ind for ind in index)", "    return index",
   "the ops keep the caller's index Tensor again (fix 12 reverted): later in-place updates of the index re-route the gradient"),
+ ("C04-replayed-identity-view-fix-reverted", "C04", "src/mygrad/tensor_base.py",
+  "            if view._base is None and view.data is node.parent.data:\n", "            if False:\n",
+  "a view that an in-place update re-creates loses its base and its replay arguments when its view op hands back the new base array itself (fix 18 reverted): the next in-place update dies with an internal TypeError after the base was written, and a failed update re-points the view's base"),
  ("C18-save-private-grad", "C18", "src/mygrad/_io.py",
   "    if tensor.grad is not None:\n        np.savez(file, data=tensor.data, grad=tensor.grad)", "    if tensor._grad is not None:\n        np.savez(file, data=tensor.data, grad=tensor._grad)",
   "view gradients are not saved (or a view's private contribution is saved instead)"),
@@ -111,6 +114,10 @@ def main():
                 meta[mid].setdefault(k, v)  # hand-written fields (expect_detect, checks) survive
         finally:
             shutil.rmtree(d)
+    for mid, v in old_meta.items():
+        # hand-made patches (git diff -R of a fix: commit) are not in M: keep their entries
+        if mid not in meta and os.path.exists(os.path.join(out, mid + ".patch")):
+            meta[mid] = v
     json.dump(meta, open(os.path.join(out, "meta.json"), "w"), indent=1)
     print(len(meta), "mutants written")
 
